@@ -5,9 +5,11 @@ import (
 	"fmt"
 	"runtime"
 	"sort"
+	"strings"
 	"sync"
 	"sync/atomic"
 	"time"
+	"verif/lib/wraps"
 
 	"gopkg.in/typ.v4/maps"
 	"gopkg.in/typ.v4/sets"
@@ -599,6 +601,13 @@ func main() {
 		}
 	}
 	r.Set("element_type_states", allTypedSets(r))
+	for k, mk := range map[string]func() sets.Set[int]{"maps.Set": func() sets.Set[int] { return newSet(kMaps) }, "sync2.Set": func() sets.Set[int] { return newSet(kSync) }} {
+		cases, msg := wraps.Set(mk)
+		if msg != "" {
+			r.Report(ev.Violation{Sig: "family|wrap", Msg: k + ": " + msg, Replay: map[string]any{"family": "wrap", "impl": k}})
+		}
+		r.Set("wrap_family_cases", cases)
+	}
 	bigSets(r)
 	churnSets(r)
 	r.Sample(map[string]any{"A": "sync2.Set[0 2] via [Add(0) Add(1) Len Remove(1) Add(2)]", "B": "maps.Set[1 2]", "ops": "Union Intersect SetDiff SymDiff AddSet RemoveSet CartesianProduct"})
@@ -807,6 +816,56 @@ func bigSets(r *ev.Run) {
 			}
 		}
 	}
+	// size ladder: every constructor, Clone and the algebra on operands around powers of two up to
+	// 2^17 (a bulk / chunked / parallel path chosen above a size threshold; a remainder forgotten)
+	for _, n := range []int{255, 256, 257, 1023, 1024, 1025, 1026, 1027, 4095, 4097, 65535, 65537, 131075} {
+		want := map[int]bool{}
+		in := make([]int, 0, n+3)
+		byKey, byVal := map[int]int{}, map[string]int{}
+		for i := 0; i < n; i++ {
+			v := i*7 - 3
+			want[v] = true
+			in = append(in, v)
+			byKey[v] = i
+			byVal[fmt.Sprint("k", i)] = v
+		}
+		in = append([]int{in[n-1], in[n/2]}, in...) // two repeats, at the front: the tail of the input is distinct values
+		type made struct {
+			name string
+			s    sets.Set[int]
+		}
+		for _, m := range []made{
+			{"maps.NewSetFromSlice", maps.NewSetFromSlice(in)}, {"sync2.NewSetFromSlice", sync2.NewSetFromSlice(in)},
+			{"maps.NewSetFromKeys", maps.NewSetFromKeys(byKey)}, {"sync2.NewSetFromKeys", sync2.NewSetFromKeys(byKey)},
+			{"maps.NewSetFromValues", maps.NewSetFromValues(byVal)}, {"sync2.NewSetFromValues", sync2.NewSetFromValues(byVal)},
+		} {
+			calls++
+			rp := map[string]any{"family": "size-ladder", "n": n, "call": m.name}
+			if msg := same(m.s, want); msg != "" {
+				r.Report(ev.Violation{Sig: "family|" + m.name[strings.Index(m.name, ".")+1:] + "|ladder", Msg: fmt.Sprintf("%s on %d distinct values: %s", m.name, n, msg), Replay: rp})
+				continue
+			}
+			for _, d := range []made{{"Clone", m.s.Clone()}, {"Union(empty)", m.s.Union(newSet(kMaps))}, {"Union(self)", m.s.Union(m.s)}, {"Intersect(self)", m.s.Intersect(m.s)}, {"SetDiff(empty)", m.s.SetDiff(newSet(kSync))}, {"SymDiff(empty)", newSet(kSync).SymDiff(m.s)}} {
+				calls++
+				if msg := same(d.s, want); msg != "" {
+					r.Report(ev.Violation{Sig: "family|" + d.name + "|ladder", Msg: fmt.Sprintf("%s of the %d-value set made by %s: %s", d.name, n, m.name, msg), Replay: rp})
+				}
+			}
+			for _, k := range []kind{kMaps, kSync} {
+				t := newSet(k)
+				t.Add(in[5])
+				if got := t.AddSet(m.s); got != n-1 {
+					r.Report(ev.Violation{Sig: "family|AddSet|ladder", Msg: fmt.Sprintf("AddSet of a %d-value set (made by %s) into a one-value subset returned %d", n, m.name, got), Replay: rp})
+				} else if msg := same(t, want); msg != "" {
+					r.Report(ev.Violation{Sig: "family|AddSet|ladder", Msg: fmt.Sprintf("after AddSet of a %d-value set: %s", n, msg), Replay: rp})
+				}
+				if got := t.RemoveSet(m.s); got != n || t.Len() != 0 {
+					r.Report(ev.Violation{Sig: "family|RemoveSet|ladder", Msg: fmt.Sprintf("RemoveSet of a %d-value set from an equal set returned %d, Len %d", n, got, t.Len()), Replay: rp})
+				}
+				calls += 2
+			}
+		}
+	}
 	r.Set("large_size_family_calls", calls)
 }
 
@@ -882,3 +941,6 @@ func churnSets(r *ev.Run) {
 	}
 	r.Set("churn_family_operations", 2*n)
 }
+
+// ModelKey is the layout-independent state key (see seqmc.ModelKeyer).
+func (x *h) ModelKey() string { return fmt.Sprint(x.k, x.m, x.isNil) }
